@@ -137,7 +137,7 @@ func runC19(c *core.Ctx, bin, root string, sc c19Scenario) map[string]any {
 	rootFile := sc.Layout.Write(dir)
 	trace := filepath.Join(dir, "trace.ndjson")
 	env := []string{"VERIF_TRACE=" + trace, fmt.Sprintf("VERIF_SCHED_SEED=%d", sc.Seed), fmt.Sprintf("GOMAXPROCS=%d", sc.Procs), "GORACE=exitcode=0 halt_on_error=0"}
-	r := core.Run(core.RunOpts{Dir: dir, Timeout: 25 * time.Second, Env: env}, bin, append(append([]string{}, sc.Cmd...), rootFile)...)
+	r := core.Run(core.RunOpts{Dir: dir, Timeout: 60 * time.Second, Env: env}, bin, append(append([]string{}, sc.Cmd...), rootFile)...)
 	evs, err := readHookTrace(trace)
 	if err != nil && !r.TimedOut {
 		evs = nil
